@@ -44,6 +44,7 @@ type Run struct {
 	owner map[*Obligation]*FnCtx
 	cg    *CallGraph
 	bounded []*BoundedSpec
+	assumed []string
 	tier  string
 	prop  string
 }
@@ -71,6 +72,13 @@ func generate(repo string) (*Run, error) {
 		}
 		c.Attached = true
 		fc := w.newFnCtx(site, c)
+		if c.Opts["assumed"] != "" {
+			// an assumed lemma (axiom): usable through `use` clauses and ghost calls, never proved
+			fc.notes = append(fc.notes, "ASSUMED lemma (axiom, not proved): "+c.Func+" - "+c.Opts["assumed"])
+			r.fcs = append(r.fcs, fc)
+			r.assumed = append(r.assumed, fc.qname+": "+c.Opts["assumed"])
+			continue
+		}
 		fc.verify()
 		r.fcs = append(r.fcs, fc)
 		for _, n := range fc.oblOrder {
@@ -331,7 +339,16 @@ func cmdCheck(args []string) int {
 		"distinct_nontrivial":      nObl + nBounded,
 		"rule":                     "one case = one named proof obligation generated from /repo's current source (distinct by name; canaries excluded); bounded stand-ins are listed separately under `bounded` and never counted in obligations/discharged",
 	}
-	ev := &Evidence{PropertyID: prop, Tier: *tier, Seed: seedFromEnv(), Level: level, Coverage: cov, Assumptions: assumptionsFor(uniqSorted(externs), uniqSorted(unmodelled)), WallS: wall, Violations: violations}
+	asm := assumptionsFor(uniqSorted(externs), uniqSorted(unmodelled))
+	for _, a := range r.assumed {
+		asm = append(asm, "assumed lemma (axiom): "+a)
+	}
+	for _, n := range uniqSorted(notes) {
+		if strings.Contains(n, "ASSUMED") {
+			asm = append(asm, n)
+		}
+	}
+	ev := &Evidence{PropertyID: prop, Tier: *tier, Seed: seedFromEnv(), Level: level, Coverage: cov, Assumptions: asm, WallS: wall, Violations: violations}
 	if !*noEvidence {
 		if err := writeEvidence(ev); err != nil {
 			fmt.Println("cannot write evidence:", err)
